@@ -218,6 +218,12 @@ RShapes ==
   \* a configured repetition used as a plain parser (IterConfigure::go), followed by a rest capture
   \cup {<<"withctx", VI(n), <<"run", <<cf, <<"rep", J("a"), b[1], b[2]>>>>>>>> :
            n \in 0..2, cf \in {"cfgrep", "cfgrepmin", "cfgrepmax"}, b \in {<<0, Inf>>, <<1, 2>>, <<2, 2>>}}
+(* configured repetitions whose item consumes before it fails (the last, partial item must be given back whichever *)
+(* bound came from the configuration), collected and as plain parsers                                                *)
+RCfgPartial ==
+  {<<"withctx", VI(n), <<k[1], <<cf, <<"rep", JJ("a", ","), b[1], b[2]>>>>, k[2]>>>> :
+      n \in 0..2, cf \in {"cfgrep", "cfgrepmin", "cfgrepmax"}, b \in {<<0, Inf>>, <<1, 2>>}, k \in {<<"collect", "vec">>, <<"collect", "count">>}}
+  \cup {<<"withctx", VI(n), <<"run", <<cf, <<"rep", JJ("a", ","), 0, Inf>>>>>>>> : n \in 0..2, cf \in {"cfgrep", "cfgrepmin", "cfgrepmax"}}
 (* p.into_iter(): an iterator whose items come from p's output, not from the input *)
 IIVecs == {<<"collect", <<"rep", a, b[1], b[2]>>, "vec">> : a \in {J("a"), <<"any">>}, b \in {<<0, Inf>>, <<1, 2>>, <<2, Inf>>}}
          \cup {<<"collect", <<"sep", J("a"), J(","), 0, Inf, FALSE, TRUE>>, "vec">>}
@@ -230,6 +236,7 @@ IIShapes ==
   \cup {<<"foldr", it, J("a"), "g">> : it \in IIts}
   \cup {<<"collect", <<"rep", <<"then", J(","), <<"collect", it, "vec">>>>, 0, Inf>>, "vec">> : it \in IIts}
 RepTemplates == RShapes \cup {<<"then", sh, RestCap>> : sh \in RShapes} \cup IIShapes \cup {<<"then", sh, RestCap>> : sh \in IIShapes}
+                \cup RCfgPartial \cup {<<"then", sh, RestCap>> : sh \in RCfgPartial}
 (* Pratt (C09): operator tables over symbols + - * ! ~ ^ with powers 0..3, same symbol allowed *)
 (* as prefix and infix; atoms a / b                                                              *)
 PAtom == <<"oneof", <<"a", "b">>>>
